@@ -303,6 +303,34 @@ func genMultiErr(rng *rand.Rand) string {
 	return p.render(rng)
 }
 
+// genMultiList: several stray parenthesised comma lists (not print arguments, not "(i, j) in a")
+// on different lines and at unrelated columns: the parser collects them in a map and must
+// still report the first one in source order.
+func genMultiList(rng *rand.Rand) string {
+	var sb strings.Builder
+	sb.WriteString("function f(a, b) { return a b }\n")
+	n := 2 + rng.Intn(4)
+	for i := 0; i < n; i++ {
+		indent := strings.Repeat(" ", rng.Intn(40))
+		if rng.Intn(3) == 0 {
+			indent = strings.Repeat("\t", rng.Intn(4))
+		}
+		switch rng.Intn(5) {
+		case 0:
+			fmt.Fprintf(&sb, "BEGIN {\n%sx%d = (1, %d)\n}\n", indent, i, i)
+		case 1:
+			fmt.Fprintf(&sb, "%s(NR, %d) { print }\n", indent, i)
+		case 2:
+			fmt.Fprintf(&sb, "END {\n%sprint f((1, 2), %d)\n}\n", indent, i)
+		case 3:
+			fmt.Fprintf(&sb, "function g%d(p) {\n%sreturn (p, %d)\n}\n", i, indent, i)
+		default:
+			fmt.Fprintf(&sb, "{ y = 1;%s z = (y, %d) + 1 }\n", indent, i)
+		}
+	}
+	return sb.String()
+}
+
 // genSharedGlobal: k small functions that disagree about the type of one global; no single
 // function is wrong by itself.
 func genSharedGlobal(rng *rand.Rand) string {
@@ -407,6 +435,8 @@ var Fixed = []Source{
 	{Gen: "fixed", Src: "function a() { b = 1 }\nfunction b() { a = 1 }\n"},
 	{Gen: "fixed", Src: "BEGIN { x = 1; x[1] = 2 }\nEND { y[1]; y = 2 }\n"},
 	{Gen: "fixed", Src: "function f(a, a) { }\nfunction g(NR) { }\n"},
+	{Gen: "fixed", Src: "BEGIN {\n                x = (1, 2)\n  y = (3, 4)\n}\nEND {\n z = (5, 6)\n}\n"},
+	{Gen: "fixed", Src: "function f(p) {\n\t\t\treturn (p, 1)\n}\n(NR, 2) { print }\n        (NR, 3)\n"},
 	{Gen: "fixed", Src: "BEGIN { print length(u), length(v); v[1] }\nfunction h(w) { return length(w) }\nEND { h(q); h(r); r[1] }\n"},
 }
 
@@ -495,6 +525,8 @@ func GenSource(rng *rand.Rand, i int, corpus []string) Source {
 		return Source{Gen: "chain", Src: genChain(rng, false)}
 	case r < 80:
 		return Source{Gen: "chain-long", Src: genChain(rng, true)}
+	case r < 86:
+		return Source{Gen: "multilist", Src: genMultiList(rng)}
 	default:
 		src, g := mutate(rng, corpus)
 		return Source{Gen: g, Src: src, Native: rng.Intn(4) == 0}
